@@ -192,6 +192,42 @@ def check(ctx):
                       "sources": {d: {f: t[:400] for f, t in fs.items()} for d, fs in m2.items()}, "patterns": ["./..."], "GOMAXPROCS": gmp, "flags": ["-ignore-errors"]},
                      "identical error output in every run", {"first_difference_at_line": k, "run_1": a[k:k + 4], "run_%d" % (r + 1): b[k:k + 4]})
                 break
+        # packages whose output paths coincide (a-b / a_b), one of them much bigger than the other, with a package between them: the same
+        # refusal, the same kept file and the same exit status on every run — into a fresh directory, again into the same directory,
+        # and under every GOMAXPROCS (the workers finish in another order)
+        fnc = "func %s%d() uint64 {\n\treturn %d\n}\n"
+        colm = {"x/a-b": {"f.go": "package ab\n\n" + "\n".join(fnc % ("Dash", i, i) for i in range(400))},
+                "x/a-b/sub": {"f.go": "package sub\n\n" + fnc % ("Sub", 0, 1)},
+                "x/a_b": {"f.go": "package a_b\n\n" + fnc % ("Under", 0, 2)}}
+        rootc = os.path.join(scratch, "colm")
+        gomod.write_module(rootc, colm)
+        firstc = None
+        for r in range(8 if ctx.tier == "quick" else 30):
+            gmp = ["16", "1", "4", "2"][r % 4]
+            fresh = r % 2 == 0
+            if fresh:
+                shutil.rmtree(os.path.join(rootc, "Goose"), ignore_errors=True)
+            rc, so, se = gomod.run_goose(rootc, [], ["./..."], env_extra={"GOMAXPROCS": gmp})
+            stats["collision_runs"] += 1
+            obs = (rc, se, {rel: c for rel, (c, _, _) in gomod.tree(os.path.join(rootc, "Goose")).items()})
+            if firstc is None:
+                firstc = obs
+                # which file survives is fixed by the order of the packages (the first one keeps its file), not by which worker is done first
+                kept = obs[2].get("example_com/m/x/a_b.v", b"").decode()
+                if obs[0] == 0 or "Definition Dash0" not in kept:
+                    viol("packages whose output paths coincide: the outcome is not the one the order of the packages determines",
+                         {"packages": {d: {f: t[:200] for f, t in fs.items()} for d, fs in colm.items()}, "patterns": ["./..."], "GOMAXPROCS": gmp},
+                         {"exit": "non-zero", "x/a_b.v": "the translation of x/a-b (the first of the two in the order of the import paths)"},
+                         {"exit": obs[0], "x/a_b.v_starts": kept[:300], "stderr": obs[1][-300:]})
+                    break
+            elif obs != firstc:
+                what = "exit status" if obs[0] != firstc[0] else "error text" if obs[1] != firstc[1] else "files"
+                viol("packages whose output paths coincide: the %s differs between runs" % what,
+                     {"packages": {d: {f: t[:200] for f, t in fs.items()} for d, fs in colm.items()}, "patterns": ["./..."], "GOMAXPROCS": gmp, "output_directory": "fresh" if fresh else "left from the previous run"},
+                     "the same outcome on every run", {"run_1": {"exit": firstc[0], "stderr": firstc[1][-300:], "files": sorted(firstc[2])},
+                                                      "run_%d" % (r + 1): {"exit": obs[0], "stderr": obs[1][-300:], "files": sorted(obs[2]),
+                                                                           "first_definitions": {k: v.decode()[:160] for k, v in obs[2].items() if firstc[2].get(k) != v}}})
+                break
         # what an earlier run left in the output directory must not matter (also for a package with an FFI prelude, whose file has no footer)
         rt_pkgs = dict(gomod.RT_PACKAGE)
         rt_pkgs["dk"] = {"d.go": "package dk\n\nimport \"github.com/goose-lang/goose/machine/disk\"\n\nfunc Blocks() uint64 {\n\treturn disk.Size()\n}\n\nfunc Last() uint64 {\n\treturn disk.Size() - 1\n}\n"}
